@@ -18,16 +18,18 @@ func readTlvStream(
 	tlvOff := 0
 
 	for {
-		readSize, err := reader.Read(recvBuf[recvOff:])
+		readSize, readErr := reader.Read(recvBuf[recvOff:])
 		recvOff += readSize
-		if err != nil {
-			if ignoreError != nil && ignoreError(err) {
+		// A Read may return bytes together with an error (n > 0, io.EOF): the bytes are
+		// processed first, the error is looked at after them.
+		if readErr != nil && readSize == 0 {
+			if ignoreError != nil && ignoreError(readErr) {
 				continue
 			}
-			if errors.Is(err, io.EOF) {
+			if errors.Is(readErr, io.EOF) {
 				return nil
 			}
-			return err
+			return readErr
 		}
 
 		// Determine whether valid packet received
@@ -74,6 +76,17 @@ func readTlvStream(
 			copy(recvBuf, recvBuf[tlvOff:recvOff])
 			recvOff -= tlvOff
 			tlvOff = 0
+		}
+
+		// The error that came with the bytes just processed
+		if readErr != nil {
+			if ignoreError != nil && ignoreError(readErr) {
+				continue
+			}
+			if errors.Is(readErr, io.EOF) {
+				return nil
+			}
+			return readErr
 		}
 	}
 }
